@@ -10,6 +10,8 @@ CLASSES = ["method", "site", "equipment", "component"]
 # weather triples relative to the envelope of adapters.crew.ENV: inside, on each bound, just outside
 WX_OK = [(15, 1, 0), (-10, 0, 0), (25, 8, 3), (0, 4, 1)]
 WX_BAD = [(26, 1, 0), (-11, 1, 0), (15, 9, 0), (15, 1, 4), (26, 9, 4), (15, 1, 9)]
+# missing values (NaN in the weather file; None here): temperature, wind, precipitation, all three
+WX_NAN = [(None, 1, 0), (15, None, 0), (15, 1, None), (None, None, None), (None, 9, 0)]
 
 
 # dates put into the generators on purpose: day-of-year 366, year boundaries, leap day
@@ -81,7 +83,9 @@ def correspond_steps(ctx, tuples, cls="method"):
     model = LeanDriver("drv_crew").run(lines)
     out = []
     for t, ml in zip(tuples, model):
-        res = guarded(ctx, "crew.step/" + cls, {"step": list(t), "cls": cls}, lambda: C.impl_step(*t[:6], cls=cls, today0=t[6]))
+        kind = (t[0] * 7 + t[1] * 3 + t[2] + t[3]) % 6     # which value is out of the envelope / missing
+        res = guarded(ctx, "crew.step/" + cls, {"step": list(t), "cls": cls, "unworkable_kind": kind},
+                      lambda: C.impl_step(*t[:6], cls=cls, today0=t[6], unworkable_kind=kind))
         if res is None:
             continue
         il = guarded(ctx, "crew.step/" + cls, {"step": list(t), "cls": cls}, lambda: C.impl_step_reply(res))
@@ -207,9 +211,10 @@ def random_day(rng, size="small", cls=None, cost_types=("day", "site", "none")):
             td = rng.choice([P, P, rng.randint(1, P), 0])
         scost = rng.choice([0, 0, 3, 20, 75])
         if not consider_weather:
-            wx = rng.choice(WX_OK + WX_BAD)
+            wx = rng.choice(WX_OK + WX_BAD + WX_NAN)
         else:
-            wx = rng.choice(WX_OK) if rng.random() < 0.7 else rng.choice(WX_BAD)
+            x = rng.random()
+            wx = rng.choice(WX_OK) if x < 0.65 else rng.choice(WX_BAD) if x < 0.85 else rng.choice(WX_NAN)
         reqs.append((sid, S, P, ip, trav, T, scost, wx, td))
     # the exact-fit family: first survey uses the crew's day to the minute
     if reqs and not stationary and rng.random() < 0.25 and budget > 0:
@@ -306,7 +311,7 @@ def random_campaign(rng):
         # campaigns that straddle New Year / the leap day / day-of-year 366
         camp["start"] = rng.choice(["2024-12-27", "2020-12-29", "2021-12-30", "2024-02-26", "2023-02-26"])
     if rng.random() < 0.4:
-        camp["weather"] = [[list(rng.choice(WX_OK) if rng.random() < 0.75 else rng.choice(WX_BAD)) for _ in range(n)]
+        camp["weather"] = [[list(rng.choice(WX_OK) if rng.random() < 0.7 else rng.choice(WX_BAD + WX_NAN)) for _ in range(n)]
                            for _ in range(rng.randint(2, 5))]
     return camp
 
@@ -342,5 +347,7 @@ def model_workable(case, req):
     if not case[6]:
         return True
     (t, w, p) = tuple(req[7])
+    if t is None or w is None or p is None:
+        return False      # a missing value (NaN in the weather file) is inside no envelope
     e = C.ENV
     return e["temp"][0] <= t <= e["temp"][1] and e["wind"][0] <= w <= e["wind"][1] and e["precip"][0] <= p <= e["precip"][1]
